@@ -3,10 +3,12 @@ use crate::{Ctx, evidence::Evidence};
 pub mod storeops;
 
 pub mod c01;
+pub mod smoke;
 
 pub fn run(property: &str, ctx: &Ctx) -> Option<Evidence> {
     match property {
         "C01" => Some(c01::run(ctx)),
+        "SMOKE" => Some(smoke::run(ctx)),
         _ => None,
     }
 }
